@@ -1,6 +1,8 @@
 (* C03 — Static reservations are exclusive and always honoured.  Statements only. *)
 From PSA Require Import model.Bytes model.Clients model.Ipdb model.Dhcp spec.SpecTable spec.SpecIpdb model.Server
   proofs.TableProofs proofs.LeaseProofs proofs.ServerProofs.
+From PSA Require Import spec.Monitors.
+From PSA Require Import spec.WireHyps spec.WireExample proofs.WireProofs proofs.WireInv proofs.WireHypsProofs proofs.WireExampleProofs.
 Open Scope N_scope.
 
 (* a reserved hardware address is served under its internal identity whatever client identifier it sends *)
@@ -40,6 +42,15 @@ Theorem C03_exclusive : forall h x t0 now0 p e now ip d ttl ok t' n (hold : bool
   (e_ip e = n <-> e_duid e = d).
 Proof. exact permanent_exclusive. Qed.
 Print Assumptions C03_exclusive.
+
+(* ON THE WIRE, over whole histories (premises as in C02_on_the_wire): on every accepted history mon_C03 holds, i.e.
+   (safety) every OFFER/ACK to a reserved hardware address carries its reserved address and no OFFER/ACK to anybody else
+   carries a reserved address, and (response) every broadcast DISCOVER without server identifier from a reserved hardware
+   address other than the server's own is answered in its round by an OFFER of the reserved address - whatever client
+   identifier it sends, whatever it suggests, whatever happened before, however long the server has been running. *)
+Theorem C03_on_the_wire : forall c h, cfg_wire_ok c -> cfg_srv_ok c -> Forall wf_round h -> seq_times 0%Z h -> accepted c h -> mon_C03 c h = true.
+Proof. exact accepted_history_c03. Qed.
+Print Assumptions C03_on_the_wire.
 
 Example C03_nonvacuous :
   let x := {| net_from := 10; net_to := 20; dyn_from := 12; dyn_to := 13; st := empty_store |} in
